@@ -323,7 +323,7 @@ fn completeness_case(ctx: &mut Ctx, g: &Gram) -> Result<(), Fail> {
 
 fn raw_grammar_strategy(max_rules: usize, with_ws: bool, shadow: bool) -> BoxedStrategy<Gram> {
     // unrepaired, stack-free, recursion-heavy
-    let cfg = GenCfg { extras: false, stack_ops: false, max_rules, ws_prob: 0.4, allow_shadow: false, depth: 3 };
+    let cfg = GenCfg { extras: EXTRAS, stack_ops: false, max_rules, ws_prob: 0.4, allow_shadow: false, depth: 3 };
     let e = expr_strategy(&cfg);
     let ty = prop_oneof![3 => Just(Ty::Normal), 1 => Just(Ty::Silent), 1 => Just(Ty::Atomic), 1 => Just(Ty::Compound), 1 => Just(Ty::NonAtomic)];
     (
@@ -386,6 +386,11 @@ pub fn run(ctx: &mut Ctx) {
     let m = ctx.share(ctx.tier.pick(200_000, 4_000_000));
     let strat3 = (raw_grammar_strategy(4, true, false), proptest::collection::vec(leading_terminal(), 1..6)).prop_map(|(mut g, terms)| {
         make_well_formed(&mut g, &terms);
+        if EXTRAS {
+            // grammar-extras rejects tags on silent rules and built-ins for a reason of its own
+            // ("will not appear in the output"): such tags are dropped by construction
+            fix_tags(&mut g);
+        }
         g
     });
     ctx.run_prop(m, 2, strat3, |ctx, g| completeness_case(ctx, g));
@@ -426,7 +431,7 @@ pub const DEF: CheckDef = CheckDef {
     rule: "Soundness: UNREPAIRED proptest grammars without stack built-ins (1-3 rules + optional WHITESPACE/COMMENT with arbitrary bodies, rule references weighted high so that recursion appears under every operator; in a quarter of them one rule is named like a built-in - ASCII_DIGIT, NEWLINE, LETTER) - for each grammar pest_meta ACCEPTS, every rule x (all strings of length <= 3 over up to 4 symbols of its alphabet + sampled derivations) is evaluated by the reference evaluator over the OPTIMIZED rules; the oracle is that it never proves divergence (re-entry of an active (rule, position, atomicity) or a repetition iteration consuming nothing - exact for stack-free grammars); a divergence verdict is then demonstrated on the real VM in a child process (stack overflow or 3M combinator calls) before it is reported. Completeness: raw grammars rewritten so that every repetition body, non-final alternative, WHITESPACE/COMMENT body and rule body starts with a non-empty literal, range or single-character built-in must be accepted by parse_and_optimize. Non-trivial = accepted grammar with a reference cycle (soundness) / grammar with a cycle and a repetition (completeness); distinct = distinct grammar text.",
     assumptions: &[
         "termination is decided by exact recurrence detection in the model (no timeouts); the child-process demonstration uses a 3,000,000-call limit only to confirm an endless iteration the model already proved",
-        "default feature configuration only (grammar-extras adds tag-specific validation errors unrelated to the statement)",
+        "both feature configurations; under grammar-extras tags that the validator rejects for a reason of its own (on silent rules / built-ins) are dropped from the completeness stream by construction",
     ],
     floor: |t| t.pick(2_000, 20_000),
     shards: |_| 16,
